@@ -30,12 +30,14 @@ SQ2 = math.sqrt(2)
 def models(tier, seed):
     n = 2500 if tier == 'quick' else 30000
     return [dict(module='MC_C13.tla', cfg='MC_C14_sim.cfg', simulate='num=100000000', depth=9, seed=seed, max_cases=n, shards=12, batch=20),
-            dict(module='MC_C15.tla', cfg='MC_C15_sim.cfg', simulate='num=100000000', depth=7, seed=seed + 3, max_cases=n // 3, shards=12, batch=20)]
+            dict(module='MC_C15.tla', cfg='MC_C15_sim.cfg', simulate='num=100000000', depth=7, seed=seed + 3, max_cases=n // 3, shards=12, batch=20),
+            # declarative descriptions with the exact solution at w = 2 as well (single-frequency complex and time-domain annotations)
+            dict(module='MC_C15.tla', cfg='MC_C15_ac.cfg', simulate='num=100000000', depth=6, seed=seed + 5, max_cases=n // 4, shards=12, batch=20)]
 
 
 def required_tags(tier):
     return ['real', 'complex:cartesian', 'complex:polar_rad', 'complex:polar_deg', 'sf_complex', 'sf_time', 'sf_time:sin', 'sf_time:hertz', 'reverse', 'voltage', 'current', 'power',
-            'potential', 'reversed_source', 'judged', 'declarative', 'reverse_omitted']
+            'potential', 'reversed_source', 'judged', 'declarative', 'reverse_omitted', 'declarative:single_frequency']
 
 
 def label_text(el):
@@ -288,15 +290,18 @@ def replay_declarative(case, ctx):
     prog, netlist = case['prog'], case['netlist']
     h = stable_hash(case['ents'])
     r = CaseResult(case_id=f'{h:x}')
-    dc = case['dc']
-    if not dc['ok'] or not netlist:
+    dc, ac = case['dc'], case.get('ac', {'ok': False})
+    if not (dc['ok'] or ac['ok']) or not netlist:
         r.skipped = 'ill_posed'
         r.nontrivial = False
         return r
     tg = {'declarative'}
     elements, names, label_names, gnd_name, naming, scheme, unit = decl_elements(case)
     p = [2, 3, 4][h % 3]
-    kind = ['dc', 'real', 'complex'][h % 3]
+    kinds_ok = (['dc', 'real', 'complex'] if dc['ok'] else []) + (['single_frequency', 'single_frequency'] if ac['ok'] else [])
+    kind = kinds_ok[(h >> 2) % len(kinds_ok)]
+    if kind.startswith('single_frequency'):
+        return replay_declarative_ac(case, ctx, r, tg, kind, ac, elements, names, naming, scheme, unit, p, h)
     volt = [{'name': names[c['id']], 'reverse': bool((h >> (j + 2)) % 2)} for j, c in enumerate(netlist)]
     curr = [{'name': names[c['id']], 'reverse': bool((h >> (j + 5)) % 2)} for j, c in enumerate(netlist)]
     powr = [{'name': names[c['id']], 'reverse': bool((h >> (j + 7)) % 2)} for j, c in enumerate(netlist)]
@@ -348,6 +353,66 @@ def replay_declarative(case, ctx):
                 prob = float_event(text, unit_, DISPLAY, v if abs(v) > 1e-9 * scale else 0.0, p, evs, what, zero_scale=scale)
             if prob:
                 r.mismatches.append({'what': what, 'got': repr(text), 'want': f'annotation of {v!r}', 'signature': f'annotation:{prob}:declarative', 'detail': f'elements={elements}'})
+    for ev in evs:
+        ev['case'] = f'{h:x}'
+    r.events = evs
+    r.tags = sorted(tg)
+    r.nontrivial = bool(evs)
+    return r
+
+
+def replay_declarative_ac(case, ctx, r, tg, kind, ac, elements, names, naming, scheme, unit, p, h):
+    """the declarative description with a single-frequency solution at w = 2.  The only declarative type that takes a frequency is
+    'single_frequency_time_domain'; create_schematic maps it to DiagramSolution.single_frequency_complex_solution (complex annotations at w,
+    Cartesian or polar) - sinusoidal time functions cannot be asked for declaratively.  Keys that solution does not take (sin, hertz) are
+    filtered out by SolutionDefinition and must not matter."""
+    from .c15 import schematic_mod
+    from CircuitCalculator.SimpleCircuit import Elements as elm
+    netlist = case['netlist']
+    mode = ['cartesian', 'polar_rad', 'polar_deg'][(h >> 5) % 3]
+    volt = [{'name': names[c['id']], 'reverse': bool((h >> (j + 2)) % 2)} for j, c in enumerate(netlist)]
+    curr = [{'name': names[c['id']], 'reverse': bool((h >> (j + 5)) % 2)} for j, c in enumerate(netlist)]
+    for lst in (volt, curr):
+        for d_ in lst:
+            if not d_['reverse'] and (h >> 11) % 2:
+                d_.pop('reverse')
+    sol_def = {'type': 'single_frequency_time_domain', 'w': 2.0, 'precision': p, 'polar': mode != 'cartesian', 'deg': mode == 'polar_deg', 'voltages': volt, 'currents': curr,
+               'sin': bool((h >> 8) % 2), 'hertz': bool((h >> 9) % 2)}
+    tg.add('declarative:single_frequency')
+    tg.add('complex:' + mode)
+    import matplotlib.pyplot as plt
+    try:
+        sch, e = call(lambda: schematic_mod().create_schematic({'unit': unit, 'elements': elements, 'solution': sol_def}))
+    finally:
+        plt.close('all')
+    ctxs = f'declarative single_frequency w=2 {mode} precision={p} scheme={scheme}'
+    if e is not None:
+        r.mismatches.append({'what': 'create_schematic with solution', 'got': repr(e), 'want': 'schematic', 'signature': f'exc:create_schematic:{exc_sig(e)}', 'detail': ctxs + f' elements={elements}'})
+        return r
+    vl = [x for x in sch.elements if isinstance(x, elm.VoltageLabel)]
+    cl = [x for x in sch.elements if isinstance(x, elm.CurrentLabel)]
+    r.observations += 1
+    if (len(vl), len(cl)) != (len(volt), len(curr)):
+        r.mismatches.append({'what': 'label symbols in schematic.elements', 'got': repr((len(vl), len(cl))), 'want': repr((len(volt), len(curr))), 'signature': 'declarative:label_count', 'detail': ctxs})
+        return r
+    U = [gauss(x) for x in ac['u']]
+    I = [gauss(x) for x in ac['i']]
+    factor = 1 / SQ2
+    vscale = max([abs(x) for x in U] + [1e-9]) * factor
+    iscale = max([abs(x) for x in I] + [1e-9]) * factor
+    vscale, iscale = max(vscale, iscale * 1e-3), max(iscale, vscale * 1e-3)
+    evs = []
+    for j, c in enumerate(netlist):
+        for quantity, labs, req, val, unit_, scale in (('voltage', vl, volt, U[j], 'V', vscale), ('current', cl, curr, I[j], 'A', iscale)):
+            sgn = -1 if req[j].get('reverse') else 1
+            text = label_text(labs[j])
+            what = f'{ctxs} {quantity}({req[j]["name"]!r}, reverse={req[j].get("reverse")})'
+            tg.update([quantity] + (['reverse'] if req[j].get('reverse') else []))
+            r.observations += 1
+            v = val * factor * sgn
+            prob = complex_events(text, mode, unit_, v, p, evs, what, scale)
+            if prob:
+                r.mismatches.append({'what': what, 'got': repr(text), 'want': f'annotation of {v!r}', 'signature': f'annotation:{prob}:declarative_ac', 'detail': f'elements={elements}'})
     for ev in evs:
         ev['case'] = f'{h:x}'
     r.events = evs
